@@ -309,6 +309,12 @@ func genC02(t *rapid.T) c02Case {
 			c.Configs[i].Conn = true
 		}
 	}
+	if rapid.IntRange(0, 5).Draw(t, "verbose") == 0 {
+		// (only the cached configurations: the baseline keeps logging off, so logging takes part in the differential)
+		for i := 1; i < len(c.Configs); i++ {
+			c.Configs[i].Verbose = true
+		}
+	}
 	return c
 }
 
